@@ -24,6 +24,13 @@
 // case that is not expired, selects the validator and has no report of it on the chain: exactly one report each, none
 // for any other request.
 //
+// LateParams: between the requests of a round and their handling / delivery, governance (a real proposal, sim.GovExec)
+// may change the oracle params: MaxRawRequestCount (in the last round also below the number of raw requests of a
+// request that is still open), MaxReportDataSize, MaxCalldataSize. A report that mirrors its open request must still
+// pass the chain's validation; only data longer than the MaxReportDataSize in force at delivery is a legitimate
+// refusal (as before). MaxRawRequestCount is lowered in the last round only, because later requests made by this
+// harness would otherwise be refused for asking too much.
+//
 // CacheOps damage the daemon's on-disk executable cache (<cache dir>/<sha256>) before a round: the file of a data
 // source's current executable is truncated, overwritten with other bytes of the same length, emptied (what a crash in
 // the middle of diskv's in-place write leaves behind) or deleted. The file cache verifies content against name, so the
@@ -162,46 +169,55 @@ type c19CacheOp struct {
 	Kind string `json:"kind"` // truncate | overwrite | empty | delete
 }
 
+// c19Params is a governance change of oracle params (zero = keep).
+type c19Params struct {
+	MaxRaw      int `json:"max_raw,omitempty"`      // MaxRawRequestCount
+	MaxData     int `json:"max_data,omitempty"`     // MaxReportDataSize
+	MaxCalldata int `json:"max_calldata,omitempty"` // MaxCalldataSize (>= 512: the requests of later rounds must stay possible)
+}
+
 // c19Round is one later round of the same daemon: chain-side edits, new requests, handling.
 type c19Round struct {
-	CacheOps  []c19CacheOp `json:"cache_ops,omitempty"`  // after Edits, before this round's requests
-	Edits     []c19Edit    `json:"edits,omitempty"`      // block before this round's requests
-	LateEdits []c19Edit    `json:"late_edits,omitempty"` // block after the requests, before the daemon handles them
-	Txs       []c19Tx      `json:"txs"`
-	Mode      string       `json:"mode"` // direct | direct-go | tx | tx-go | restart
-	Rot       int          `json:"rot,omitempty"`
-	Rev       bool         `json:"rev,omitempty"`
-	Ghost     bool         `json:"ghost,omitempty"`
-	Idle      int          `json:"idle,omitempty"`       // restart: empty blocks between the reports of the others and the start-up
-	Expire    int          `json:"expire,omitempty"`     // restart, last round only: 1 = blocks pass until the requests of earlier rounds have expired, 2 = this round's too
-	StoreFail int          `json:"store_fail,omitempty"` // the first k /store queries of this round fail
-	DataFail  int          `json:"data_fail,omitempty"`  // the first k Query/Data queries (of fetchable files) of this round fail
+	LateParams *c19Params   `json:"late_params,omitempty"` // after the requests (and LateEdits), before handling and delivery
+	CacheOps   []c19CacheOp `json:"cache_ops,omitempty"`   // after Edits, before this round's requests
+	Edits      []c19Edit    `json:"edits,omitempty"`       // block before this round's requests
+	LateEdits  []c19Edit    `json:"late_edits,omitempty"`  // block after the requests, before the daemon handles them
+	Txs        []c19Tx      `json:"txs"`
+	Mode       string       `json:"mode"` // direct | direct-go | tx | tx-go | restart
+	Rot        int          `json:"rot,omitempty"`
+	Rev        bool         `json:"rev,omitempty"`
+	Ghost      bool         `json:"ghost,omitempty"`
+	Idle       int          `json:"idle,omitempty"`       // restart: empty blocks between the reports of the others and the start-up
+	Expire     int          `json:"expire,omitempty"`     // restart, last round only: 1 = blocks pass until the requests of earlier rounds have expired, 2 = this round's too
+	StoreFail  int          `json:"store_fail,omitempty"` // the first k /store queries of this round fail
+	DataFail   int          `json:"data_fail,omitempty"`  // the first k Query/Data queries (of fetchable files) of this round fail
 }
 
 type c19Case struct {
-	NVals     int          `json:"nvals"`
-	Active    []bool       `json:"active"`
-	Me        int          `json:"me"` // index of the validator the daemon works for
-	DSs       []c19DS      `json:"dss"`
-	Txs       []c19Tx      `json:"txs"`
-	Mode      string       `json:"mode"` // direct | direct-go | tx | tx-go
-	Rot       int          `json:"rot,omitempty"`
-	Rev       bool         `json:"rev,omitempty"`
-	Ghost     bool         `json:"ghost,omitempty"` // direct modes: also handle a request id that does not exist
-	MaxTry    int          `json:"max_try"`
-	StoreFail int          `json:"store_fail,omitempty"` // the first k /store queries fail
-	DataFail  int          `json:"data_fail,omitempty"`  // the first k Query/Data queries (of fetchable files) fail
-	Yield     bool         `json:"yield,omitempty"`      // RPC stub yields the processor on every call
-	NKeys     int          `json:"nkeys"`                // 1 or 3 reporter keys
-	Procs     int          `json:"procs,omitempty"`      // GOMAXPROCS for this case (0 = leave)
-	ExclShort int          `json:"excl_short,omitempty"` // number of short executables remapped because of the known finding
-	CacheOps  []c19CacheOp `json:"cache_ops,omitempty"`  // round 1: before the requests
-	Idle      int          `json:"idle,omitempty"`       // round 1, mode restart: see c19Round
-	Expire    int          `json:"expire,omitempty"`     // round 1, mode restart: see c19Round
-	ExpBlocks int          `json:"exp_blocks,omitempty"` // oracle param ExpirationBlockCount (0 = default 100)
-	Exec      string       `json:"exec,omitempty"`       // "" = executor stub, "rest" = the real REST executor against an in-process endpoint
-	MaxData   int          `json:"max_data,omitempty"`   // oracle param MaxReportDataSize of the chain (0 = default 512)
-	ExecCut   int          `json:"exec_cut,omitempty"`   // the executor cuts its output to this many bytes (0 = it does not cut)
+	NVals      int          `json:"nvals"`
+	Active     []bool       `json:"active"`
+	Me         int          `json:"me"` // index of the validator the daemon works for
+	DSs        []c19DS      `json:"dss"`
+	Txs        []c19Tx      `json:"txs"`
+	Mode       string       `json:"mode"` // direct | direct-go | tx | tx-go
+	Rot        int          `json:"rot,omitempty"`
+	Rev        bool         `json:"rev,omitempty"`
+	Ghost      bool         `json:"ghost,omitempty"` // direct modes: also handle a request id that does not exist
+	MaxTry     int          `json:"max_try"`
+	StoreFail  int          `json:"store_fail,omitempty"`  // the first k /store queries fail
+	DataFail   int          `json:"data_fail,omitempty"`   // the first k Query/Data queries (of fetchable files) fail
+	Yield      bool         `json:"yield,omitempty"`       // RPC stub yields the processor on every call
+	NKeys      int          `json:"nkeys"`                 // 1 or 3 reporter keys
+	Procs      int          `json:"procs,omitempty"`       // GOMAXPROCS for this case (0 = leave)
+	ExclShort  int          `json:"excl_short,omitempty"`  // number of short executables remapped because of the known finding
+	LateParams *c19Params   `json:"late_params,omitempty"` // round 1: see c19Round
+	CacheOps   []c19CacheOp `json:"cache_ops,omitempty"`   // round 1: before the requests
+	Idle       int          `json:"idle,omitempty"`        // round 1, mode restart: see c19Round
+	Expire     int          `json:"expire,omitempty"`      // round 1, mode restart: see c19Round
+	ExpBlocks  int          `json:"exp_blocks,omitempty"`  // oracle param ExpirationBlockCount (0 = default 100)
+	Exec       string       `json:"exec,omitempty"`        // "" = executor stub, "rest" = the real REST executor against an in-process endpoint
+	MaxData    int          `json:"max_data,omitempty"`    // oracle param MaxReportDataSize of the chain (0 = default 512)
+	ExecCut    int          `json:"exec_cut,omitempty"`    // the executor cuts its output to this many bytes (0 = it does not cut)
 	// later rounds handled by the same daemon Context (round 1 = the fields above)
 	LateEdits []c19Edit  `json:"late_edits,omitempty"` // round 1: edits between the requests and their handling
 	Rounds    []c19Round `json:"rounds,omitempty"`
@@ -390,6 +406,23 @@ func sortedKeys(m map[int]bool) []int {
 	return out
 }
 
+// genLateParams draws a governance change of the oracle params that lands while the round's requests are open.
+func genLateParams(rt *rapid.T, last bool, maxData int) *c19Params {
+	p := &c19Params{}
+	if last && gen.Chance(rt, "lpraw", 4, 5) {
+		p.MaxRaw = gen.OneOf(rt, "lpmaxraw", 1, 1, 2, 2, 3, 3, 5, 6, 16) // open requests have 1..6 raw requests
+	} else if gen.Chance(rt, "lprawhigh", 1, 2) {
+		p.MaxRaw = gen.OneOf(rt, "lpmaxrawhigh", 6, 7, 32)
+	}
+	if gen.Chance(rt, "lpdata", 1, 3) {
+		p.MaxData = gen.OneOf(rt, "lpmaxdata", 16, 64, 512, 1024, maxData-1, maxData+1)
+	}
+	if gen.Chance(rt, "lpcall", 1, 4) {
+		p.MaxCalldata = gen.OneOf(rt, "lpmaxcall", 512, 2048)
+	}
+	return p
+}
+
 func genCacheOps(rt *rapid.T, nds int, usedList []int) []c19CacheOp {
 	if !gen.Chance(rt, "cacheops", 1, 3) {
 		return nil
@@ -495,6 +528,23 @@ func genC19(rt *rapid.T) c19Case {
 	}
 	if c.Expire > 0 || (len(c.Rounds) > 0 && c.Rounds[len(c.Rounds)-1].Expire > 0) {
 		c.ExpBlocks = 30 // more than all blocks before the last round's start-up, few enough to be walked through
+	} else {
+		// (a proposal takes three blocks; cases that walk up to the expiry keep their block budget)
+		if nRounds == 1 {
+			if gen.Chance(rt, "lp1", 1, 3) {
+				c.LateParams = genLateParams(rt, true, c.MaxData)
+			}
+		} else {
+			if gen.Chance(rt, "lp1", 1, 8) {
+				c.LateParams = genLateParams(rt, false, c.MaxData)
+			}
+			for i := range c.Rounds {
+				last := i == len(c.Rounds)-1
+				if (last && gen.Chance(rt, "lpl", 1, 3)) || (!last && gen.Chance(rt, "lpm", 1, 8)) {
+					c.Rounds[i].LateParams = genLateParams(rt, last, c.MaxData)
+				}
+			}
+		}
 	}
 	return c
 }
@@ -1036,6 +1086,8 @@ type c19World struct {
 	cacheOpsApplied, cacheOpsDamaging, cacheOpsMissing          int
 	damagedAskedRaws, damagedAskedRan, damagedAskedAfterRestart int
 
+	paramChanges, maxRawLowered, maxDataChanged, openOverMaxRaw, openOverMaxRawDelivered int
+
 	nRounds  int
 	cacheDir string
 	kb       keyring.Keyring
@@ -1149,6 +1201,45 @@ func (w *c19World) applyEdits(edits []c19Edit, late bool, ri int) bool {
 			v.Failf("harness", "data source %d after the edits is not what the model expects: %v", id, derr)
 			return false
 		}
+	}
+	return true
+}
+
+// changeParams runs a governance proposal that changes oracle params while this round's requests are open.
+func (w *c19World) changeParams(lp *c19Params) bool {
+	if lp == nil {
+		return true
+	}
+	v, ch := w.v, w.ch
+	cur := ch.App.OracleKeeper.GetParams(ch.Ctx())
+	np := cur
+	if lp.MaxRaw > 0 {
+		np.MaxRawRequestCount = uint64(lp.MaxRaw)
+	}
+	if lp.MaxData > 0 {
+		np.MaxReportDataSize = uint64(lp.MaxData)
+	}
+	if lp.MaxCalldata > 0 {
+		np.MaxCalldataSize = uint64(lp.MaxCalldata)
+	}
+	if np.Equal(cur) {
+		return true
+	}
+	passed, _, err := ch.GovExec(&oracletypes.MsgUpdateParams{Authority: sim.GovAuthority(), Params: np})
+	if err != nil || !passed {
+		v.Failf("harness", "oracle params proposal did not pass: %v", err)
+		return false
+	}
+	if got := ch.App.OracleKeeper.GetParams(ch.Ctx()); !got.Equal(np) {
+		v.Failf("harness", "oracle params after the proposal are not the proposed ones")
+		return false
+	}
+	w.paramChanges++
+	if np.MaxRawRequestCount < cur.MaxRawRequestCount {
+		w.maxRawLowered++
+	}
+	if np.MaxReportDataSize != cur.MaxReportDataSize {
+		w.maxDataChanged++
 	}
 	return true
 }
@@ -1408,9 +1499,22 @@ func runC19(c c19Case) *pbt.Verdict {
 	if c.ExclShort > 0 {
 		v.Count("excluded_known", int64(c.ExclShort))
 	}
-	rounds := append([]c19Round{{CacheOps: c.CacheOps, LateEdits: c.LateEdits, Txs: c.Txs, Mode: c.Mode, Rot: c.Rot, Rev: c.Rev, Ghost: c.Ghost,
+	rounds := append([]c19Round{{LateParams: c.LateParams, CacheOps: c.CacheOps, LateEdits: c.LateEdits, Txs: c.Txs, Mode: c.Mode, Rot: c.Rot, Rev: c.Rev, Ghost: c.Ghost,
 		Idle: c.Idle, Expire: c.Expire, StoreFail: c.StoreFail, DataFail: c.DataFail}}, c.Rounds...)
 	for i := range rounds {
+		if lp := rounds[i].LateParams; lp != nil {
+			cp := *lp // (the case itself is not modified)
+			if cp.MaxRaw < 0 || cp.MaxRaw > 64 || (cp.MaxRaw > 0 && cp.MaxRaw < 6 && i != len(rounds)-1) {
+				cp.MaxRaw = 0
+			}
+			if cp.MaxData < 0 || cp.MaxData > 4096 {
+				cp.MaxData = 0
+			}
+			if cp.MaxCalldata != 0 && (cp.MaxCalldata < 512 || cp.MaxCalldata > 65536) {
+				cp.MaxCalldata = 0
+			}
+			rounds[i].LateParams = &cp
+		}
 		if len(rounds[i].CacheOps) > 8 {
 			rounds[i].CacheOps = rounds[i].CacheOps[:8]
 		}
@@ -1673,6 +1777,9 @@ func (w *c19World) round(ri int, rd c19Round) (*pbt.Verdict, bool) {
 
 	// -- chain-side edits between the requests and their handling ------------------------------------------
 	if !w.applyEdits(rd.LateEdits, true, ri) {
+		return nil, false
+	}
+	if !w.changeParams(rd.LateParams) {
 		return nil, false
 	}
 	w.ex.mu.Lock()
@@ -2100,6 +2207,7 @@ func (w *c19World) round(ri int, rd c19Round) (*pbt.Verdict, bool) {
 	// legitimate refusal is a raw report longer than MaxReportDataSize because the executor's own successful output
 	// was that long (it did not cut). Data that long in any other raw report (an executor failure) is the daemon's doing.
 	maxData := int(ch.App.OracleKeeper.GetParams(ctx).MaxReportDataSize)
+	maxRawNow := ch.App.OracleKeeper.GetParams(ctx).MaxRawRequestCount
 	var dtxs [][]byte
 	var dreps []*oracletypes.MsgReportData
 	for _, m := range evalModels {
@@ -2116,6 +2224,13 @@ func (w *c19World) round(ri int, rd c19Round) (*pbt.Verdict, bool) {
 		}
 		for i, rp := range dreps {
 			tr := dres.Resp.TxResults[i]
+			overRaw := uint64(len(rp.RawReports)) > maxRawNow
+			if overRaw {
+				w.openOverMaxRaw++
+				if tr.Code == 0 {
+					w.openOverMaxRawDelivered++
+				}
+			}
 			over, atMax, longest := false, false, 0
 			for _, rr := range rp.RawReports {
 				if len(rr.Data) > longest {
@@ -2233,6 +2348,17 @@ func (w *c19World) stats(nRounds int) {
 		}
 	} else {
 		v.Class("executor:stub")
+	}
+	v.Count("oracle_param_changes_while_requests_open", int64(w.paramChanges))
+	v.Count("max_raw_request_count_lowered", int64(w.maxRawLowered))
+	v.Count("max_report_data_size_changed", int64(w.maxDataChanged))
+	v.Count("reports_for_open_request_above_current_max_raw_count", int64(w.openOverMaxRaw))
+	v.Count("reports_for_open_request_above_current_max_raw_count_accepted", int64(w.openOverMaxRawDelivered))
+	if w.paramChanges > 0 {
+		v.Class("oracle-params-changed-while-requests-open")
+	}
+	if w.openOverMaxRaw > 0 {
+		v.Class("open-request-exceeds-current-max-raw-count")
 	}
 	v.Count("cache_ops_applied", int64(w.cacheOpsApplied))
 	v.Count("cache_ops_damaging", int64(w.cacheOpsDamaging))
